@@ -31,7 +31,7 @@ def seeds():
         name = os.path.basename(os.path.dirname(p))
         first = m.get('needs_to_manifest', '').strip().splitlines()[0].lstrip('# ').replace('|', '/') if m.get('needs_to_manifest') else ''
         sigs = ', '.join(m.get('violation_signatures', [])[:2])
-        rows.append('| %s | %s | %s | `%s` |' % (name, first[:140], ('superseded' if m.get('superseded') else ('yes' if m.get('caught_by_check') else 'NO')), sigs))
+        rows.append('| %s | %s | %s | `%s` |' % (name, first[:140], ('superseded' if m.get('superseded') else ('not demanded' if m.get('not_demanded') else ('yes' if m.get('caught_by_check') else 'NO'))), sigs))
     return '\n'.join(rows) + '\n'
 
 
